@@ -76,7 +76,7 @@ func extractNumberDFA(c *Ctx, u *Universe) *numDFA {
 	// initial state: value of `var state = …`
 	pe0 := newPE(u, info, fd)
 	st0 := newState()
-	for _, s := range fd.Body.List {
+	for _, s := range flatStmts(fd.Body.List) {
 		if s == loop {
 			break
 		}
@@ -154,9 +154,9 @@ func extractNumberDFA(c *Ctx, u *Universe) *numDFA {
 	after := stmtsAfterLabel(fd, "")
 	if after == nil {
 		// no label: statements after the loop
-		for i, s := range fd.Body.List {
+		for i, s := range flatStmts(fd.Body.List) {
 			if s == loop {
-				after = fd.Body.List[i+1:]
+				after = flatStmts(fd.Body.List)[i+1:]
 			}
 		}
 	}
